@@ -176,3 +176,42 @@ Proof.
   intros Q M qeqb meqb Hq Hm lq lm Hnq Hnm w T Hw Hinv.
   apply (hmc_skeleton_invariant qeqb meqb Hq Hm lq lm Hnq Hnm w T Hw Hinv).
 Qed.
+
+(* ---- the glue hypothesis of the gradient-based kernels: kernel target = exp(block log-density), ZERO
+   where the log-density is undefined (NaN) or -inf.  A state of zero weight is never entered from the
+   support by the accepted/rejected involution; if the undefined log-density is replaced by a finite
+   number (jnp.nan_to_num: 0.0, i.e. weight exp 0 = 1) the kernel does enter it and the true target is no
+   longer invariant. ---- *)
+Theorem thm_zero_weight_never_entered :
+  forall (X : Type) (eqb : X -> X -> bool), eqb_ok eqb ->
+  forall (xs : list X) (w : X -> R) (T : X -> X) (x y : X),
+  0 < w x -> w y = 0 -> x <> y -> involutive_kernel eqb xs w T x y = 0.
+Proof.
+  intros X eqb He xs w T x y Hx Hy Hne.
+  unfold involutive_kernel, with_diag. rewrite (eqb_neq eqb He x y Hne).
+  unfold inv_off. destruct (eqb y (T x)) eqn:E; [|reflexivity].
+  apply He in E. rewrite <- E, Hy. unfold Rdiv. rewrite Rmult_0_l.
+  unfold Rmin. destruct (Rle_dec 1 0); lra.
+Qed.
+
+Definition xs01 : list nat := [0; 1]%nat.
+Definition swap01 (x : nat) : nat := match x with 0%nat => 1%nat | _ => 0%nat end.
+Definition w_true (x : nat) : R := match x with 0%nat => 1 | _ => 0 end.          (* 1 is outside the support *)
+Definition w_num (x : nat) : R := match x with 0%nat => 1 | _ => exp 0 end.       (* nan_to_num: log-density 0.0 *)
+
+Theorem thm_nan_to_num_target_refuted :
+  (forall x, In x xs01 -> swap01 (swap01 x) = x) /\
+  involutive_kernel Nat.eqb xs01 w_true swap01 0%nat 1%nat = 0 /\
+  involutive_kernel Nat.eqb xs01 w_num swap01 0%nat 1%nat = 1 /\
+  ~ invariant xs01 w_true (involutive_kernel Nat.eqb xs01 w_num swap01).
+Proof.
+  assert (M : Rmin 1 (1 / 1) = 1) by (unfold Rmin; destruct (Rle_dec 1 (1 / 1)); lra).
+  assert (Z : Rmin 1 (0 / 1) = 0) by (unfold Rmin; destruct (Rle_dec 1 (0 / 1)); lra).
+  repeat split.
+  - intros x Hx. unfold xs01 in Hx. cbn [In] in Hx. destruct Hx as [<-|[<-|[]]]; reflexivity.
+  - cbv [involutive_kernel with_diag inv_off Nat.eqb swap01 w_true]. exact Z.
+  - cbv [involutive_kernel with_diag inv_off Nat.eqb swap01 w_num]. rewrite exp_0. exact M.
+  - intros H. pose proof (H 1%nat (or_intror (or_introl eq_refl))) as E.
+    cbv [rsum fold_right xs01 involutive_kernel with_diag inv_off Nat.eqb swap01 w_num w_true] in E.
+    rewrite exp_0 in E. rewrite M in E. lra.
+Qed.
